@@ -91,8 +91,6 @@ def build(repo, tier):
     cs = c12_contracts(None)
     units.append(Unit('C19/py/PrettyPrintingInterpreter.print_stack', print_stack_unit(repo, cs)))
     for m in STEP_NAME:
-        if m in ('instantiate', 'instantiate_pattern'):
-            continue            # their step lines are built by loops / joins over symbolic-length containers: bounded stand-in only
         for ph in PHASES_OF.get(m, ['Proof']):
             units.append(Unit(f'C19/py/PrettyPrintingInterpreter.{m}/{ph}', pretty_method_unit(repo, cs, m, ph), info={'split_depth': 1}))
             fns.append((PPFILE, f'PrettyPrintingInterpreter.{m} (through the pretty() decorator)'))
@@ -105,7 +103,7 @@ def build(repo, tier):
                         'str.format semantics: placeholders are found with string.Formatter().parse on the format string in which symbolic pieces (str(var), symbol names) are brace-free',
                         'rendering of an argument is an opaque string; "printed differently" is decided up to the delimiters of the format string (str.format does not guarantee unambiguous concatenation)',
                         'nary_app is checked for arities 0..12, which includes two-digit placeholders (bounded in the arity only; symbol and cell flag arbitrary)',
-                        'binary side: one instruction per interpreter call is C04; pretty side: 22 of the 24 decorator-generated methods of PrettyPrintingInterpreter are executed through the real decorator (one step line, starting with the instruction name, then only empty or tab-indented lines; print_stack and the write_list loop of metavar under loop contracts); instantiate / instantiate_pattern and whole files: bounded stand-in only', 'renderings of patterns, symbol names, numbers and the id text passed to load() contain no line break',
+                        'binary side: one instruction per interpreter call is C04; pretty side: all 24 decorator-generated methods of PrettyPrintingInterpreter are executed through the real decorator (one step line, starting with the instruction name, then only empty or tab-indented lines; print_stack and the write_list loop of metavar under loop contracts); whole files: bounded stand-in only', 'renderings of patterns, symbol names, numbers and the id text passed to load() contain no line break',
                         'Instantiate.pretty: membership and lookup in opts.notations are decided by == on the keys (hash is assumed consistent with ==, as the dataclass / Instantiate.__hash__ definitions intend)'],
                     functions=fns)
 
